@@ -232,20 +232,26 @@ func c09WorkerLoop(c *Ctx, r *Result) {
 		if !isDefer {
 			return
 		}
-		mc, isMC := d.Call.Value.(*ssa.MakeClosure)
-		if !isMC {
-			return
-		}
-		cf, _ := mc.Fn.(*ssa.Function)
-		if cf == nil {
+		// a deferred closure or a deferred method / function; the delete may sit in a helper it calls
+		cf := d.Call.StaticCallee()
+		if cf == nil || !c.inModule(cf) {
 			return
 		}
 		deletes := false
-		allInstrs(cf, func(x ssa.Instruction) {
-			if isBuiltinCall(x, "delete") {
-				deletes = true
-			}
-		})
+		var look func(f *ssa.Function, depth int)
+		look = func(f *ssa.Function, depth int) {
+			allInstrs(f, func(x ssa.Instruction) {
+				if isBuiltinCall(x, "delete") {
+					deletes = true
+				}
+				if ci, ok := x.(*ssa.Call); ok && depth < 2 {
+					if g := ci.Call.StaticCallee(); g != nil && c.inModule(g) && g != f {
+						look(g, depth+1)
+					}
+				}
+			})
+		}
+		look(cf, 0)
 		if deletes && dominates(in, run) && !inLoop(in.Block()) {
 			deferOK = true
 		}
